@@ -174,6 +174,16 @@ pub struct BitFieldVec<W: Word = usize, B = Vec<W>> {
     len: usize,
 }
 
+/// Returns the number of bits of a vector of `len` fields of `bit_width`
+/// bits, panicking if it does not fit a `usize` (in release builds the
+/// product would wrap silently, and the vector would be larger than its
+/// backend).
+#[inline(always)]
+fn bit_len(len: usize, bit_width: usize) -> usize {
+    len.checked_mul(bit_width)
+        .expect("The number of bits of the vector overflows usize")
+}
+
 fn mask<W: Word>(bit_width: usize) -> W {
     if bit_width == 0 {
         W::ZERO
@@ -320,7 +330,7 @@ impl<W: Word> BitFieldVec<W, Vec<W>> {
     /// Creates a new zero-initialized vector of given bit width and length.
     pub fn new(bit_width: usize, len: usize) -> Self {
         // We need at least one word to handle the case of bit width zero.
-        let n_of_words = Ord::max(1, (len * bit_width).div_ceil(W::BITS));
+        let n_of_words = Ord::max(1, bit_len(len, bit_width).div_ceil(W::BITS));
         Self {
             bits: vec![W::ZERO; n_of_words],
             bit_width,
@@ -336,7 +346,7 @@ impl<W: Word> BitFieldVec<W, Vec<W>> {
     /// Note that this convenience method is a one-off: if the vector is resized
     /// or expanded, the padding will be lost.
     pub fn new_unaligned(bit_width: usize, len: usize) -> Self {
-        let n_of_words = (len * bit_width).div_ceil(W::BITS);
+        let n_of_words = bit_len(len, bit_width).div_ceil(W::BITS);
         Self {
             // We add a word at the end
             bits: vec![W::ZERO; n_of_words + 1],
@@ -350,7 +360,7 @@ impl<W: Word> BitFieldVec<W, Vec<W>> {
     /// `capacity` elements.
     pub fn with_capacity(bit_width: usize, capacity: usize) -> Self {
         // We need at least one word to handle the case of bit width zero.
-        let n_of_words = Ord::max(1, (capacity * bit_width).div_ceil(W::BITS));
+        let n_of_words = Ord::max(1, bit_len(capacity, bit_width).div_ceil(W::BITS));
         let mut bits = Vec::with_capacity(n_of_words);
         if bit_width == 0 {
             // No push will ever add a word, but get/set read the first one.
@@ -437,9 +447,9 @@ impl<W: Word> BitFieldVec<W, Vec<W>> {
     pub fn resize(&mut self, new_len: usize, value: W) {
         panic_if_value!(value, self.mask, self.bit_width);
         if new_len > self.len {
-            if new_len * self.bit_width > self.bits.len() * W::BITS {
-                self.bits
-                    .resize((new_len * self.bit_width).div_ceil(W::BITS), W::ZERO);
+            let new_bit_len = bit_len(new_len, self.bit_width);
+            if new_bit_len > self.bits.len() * W::BITS {
+                self.bits.resize(new_bit_len.div_ceil(W::BITS), W::ZERO);
             }
             for i in self.len..new_len {
                 unsafe {
@@ -1230,7 +1240,7 @@ where
 {
     pub fn new(bit_width: usize, len: usize) -> AtomicBitFieldVec<W> {
         // we need at least two words to avoid branches in the gets
-        let n_of_words = Ord::max(1, (len * bit_width).div_ceil(W::BITS));
+        let n_of_words = Ord::max(1, bit_len(len, bit_width).div_ceil(W::BITS));
         AtomicBitFieldVec::<W> {
             bits: (0..n_of_words)
                 .map(|_| W::AtomicType::new(W::ZERO))
